@@ -172,4 +172,59 @@ theorem race_free_iff : RaceFree table ↔ claimedUndisciplined = [] := by
     rw [h] at this
     cases this
 
+/-! ### non-vacuity: a concrete table and interleaving satisfying every hypothesis -/
+
+/-- toy class: `run()` writes a plain member under the mutex, `filtering_recursion()` reads it under
+    the same mutex; a second plain member is read by both without any lock (read/read) and a third is
+    written by `run()` and read by the recursion with no lock at all -/
+def toy : Table :=
+  { fields := [⟨name% "FilteringAlgorithm", name% "guarded_", .plain⟩, ⟨name% "FilteringAlgorithm", name% "mtx_", .mutex⟩,
+               ⟨name% "FilteringAlgorithm", name% "config_", .plain⟩, ⟨name% "FilteringAlgorithm", name% "racy_", .plain⟩],
+    methods := [⟨name% "FilteringAlgorithm::run", 0, false, true⟩, ⟨name% "FilteringAlgorithm::filtering_recursion", 0, false, true⟩],
+    accesses := [⟨0, 0, .write, true, [1], 10⟩, ⟨1, 0, .read, true, [1], 20⟩, ⟨0, 2, .read, true, [], 11⟩, ⟨1, 2, .read, true, [], 21⟩,
+                 ⟨0, 3, .write, true, [], 12⟩, ⟨1, 3, .read, true, [1], 22⟩],
+    calls := [] }
+
+/-- controller: lock, write, unlock; then the filtering thread: lock, read, unlock -/
+def toyTrace : List Ev :=
+  [.lock .controller (0, 1), .acc .controller (0, 0) true false, .unlock .controller (0, 1),
+   .lock .filter (0, 1), .acc .filter (0, 0) false false, .unlock .filter (0, 1)]
+
+theorem toy_reach_run : Reach toy (toy.rootIds .controller) 0 := Reach.root (by decide)
+theorem toy_reach_rec : Reach toy (toy.rootIds .filter) 1 := Reach.root (by decide)
+
+/-- the hypotheses of `lockset_sound` are satisfiable by a non-trivial interleaving with accesses of
+    both threads to the same location -/
+example : WF toyTrace ∧ Conforms toy toyTrace ∧ FieldOK toy 0 := by
+  have cC : ReachCert toy .controller (toy.reach .controller) := ⟨rfl, by decide, by decide⟩
+  have cF : ReachCert toy .filter (toy.reach .filter) := ⟨rfl, by decide, by decide⟩
+  refine ⟨?_, ?_, (fieldOK_iff_of_cert cC cF 0).1 (by decide)⟩
+  · have h0 : WF [] := WF.nil
+    have h1 := WF.snoc h0 (e := .lock .controller (0, 1)) (by simp [okEv, holders])
+    have h2 := WF.snoc h1 (e := .acc .controller (0, 0) true false) trivial
+    have h3 := WF.snoc h2 (e := .unlock .controller (0, 1)) (by simp [okEv, holders, applyEv])
+    have h4 := WF.snoc h3 (e := .lock .filter (0, 1)) (by simp [okEv, holders, applyEv])
+    have h5 := WF.snoc h4 (e := .acc .filter (0, 0) false false) trivial
+    exact WF.snoc h5 (e := .unlock .filter (0, 1)) (by simp [okEv, holders, applyEv])
+  · have h0 := conforms_nil toy
+    have h1 := conforms_snoc h0 (e := .lock .controller (0, 1)) trivial
+    have h2 := conforms_snoc h1 (e := .acc .controller (0, 0) true false)
+      ⟨⟨0, 0, .write, true, [1], 10⟩, by simp [toy], toy_reach_run, rfl, rfl, rfl, by simp [held, applyHeld]⟩
+    have h3 := conforms_snoc h2 (e := .unlock .controller (0, 1)) trivial
+    have h4 := conforms_snoc h3 (e := .lock .filter (0, 1)) trivial
+    have h5 := conforms_snoc h4 (e := .acc .filter (0, 0) false false)
+      ⟨⟨1, 0, .read, true, [1], 20⟩, by simp [toy], toy_reach_rec, rfl, rfl, rfl, by simp [held, applyHeld]⟩
+    exact conforms_snoc h5 (e := .unlock .filter (0, 1)) trivial
+
+/-- both polarities of the decision on the toy table: guarded and read-only members are disciplined,
+    the member locked on one side only is not, and it does race -/
+example : toy.undisciplined = [3] := by decide
+
+example : ∃ tr, WF tr ∧ Conforms toy tr ∧ RaceOnField 3 tr := by
+  have cC : ReachCert toy .controller (toy.reach .controller) := ⟨rfl, by decide, by decide⟩
+  have cF : ReachCert toy .filter (toy.reach .filter) := ⟨rfl, by decide, by decide⟩
+  exact Race.lockset_complete toy 3 (fun h => by
+    have := (fieldOK_iff_of_cert cC cF 3).2 h
+    revert this; decide)
+
 end BFL.C10
